@@ -81,14 +81,15 @@ type retained struct {
 // connection's goroutine during the run).
 type connState struct {
 	*SimConn
-	retainedVals []retained
-	Corrupt      []string
-	inHandler    int
-	cmdCtx       context.Context
-	reader       *buffer.Reader
-	CapSeen      []int
-	ReuseTail    int
-	Realloc      int
+	retainedVals  []retained
+	Corrupt       []string
+	inHandler     int
+	cmdCtx        context.Context
+	cancelSession context.CancelFunc
+	reader        *buffer.Reader
+	CapSeen       []int
+	ReuseTail     int
+	Realloc       int
 }
 
 func (c *connState) retain(name, s string) {
@@ -166,6 +167,7 @@ func (c *Case) Inspect() bool { return c.Prop == "C12" || c.Prop == "C19" || c.V
 
 // Runtime is the state of one simulated run.
 type Runtime struct {
+	valHits    [8]int
 	C          *Case
 	K          *Kernel
 	Conns      []*connState
@@ -236,6 +238,20 @@ func (rt *Runtime) inspectCtx(c *connState, ctx context.Context, where string) {
 		ra, wire.TypeMap(ctx) != nil, wire.AuthenticatedUsername(ctx), ctx.Err() == nil, prev))
 }
 
+// valHit counts the matches of a validator entry (one goroutine runs at a
+// time under both engines; hidden from the race detector like the kernel's own
+// state, so that it adds no happens-before edge between connections).
+//
+//go:norace
+func (rt *Runtime) valHit(i int) int {
+	if i >= len(rt.valHits) {
+		return 0
+	}
+	n := rt.valHits[i]
+	rt.valHits[i]++
+	return n
+}
+
 func (rt *Runtime) validator(ctx context.Context, database, username, password string) (context.Context, bool, error) {
 	c := rt.connOf(ctx)
 	rt.K.Yield(c.task, "cb.validator")
@@ -243,9 +259,12 @@ func (rt *Runtime) validator(ctx context.Context, database, username, password s
 	if out == "" {
 		out = "reject"
 	}
-	for _, e := range rt.C.Server.Validator {
+	for i, e := range rt.C.Server.Validator {
 		if e.DB == database && e.User == username && e.PW == password {
 			out = e.Out
+			if rt.valHit(i) > 0 && e.Next != "" {
+				out = e.Next
+			}
 			break
 		}
 	}
@@ -329,7 +348,11 @@ func (rt *Runtime) buildServer() (*wire.Server, error) {
 			if mw.Fail {
 				return ctx, fmt.Errorf("middleware %d refuses", i)
 			}
-			return context.WithValue(ctx, mwKey(i), i+1), nil
+			ctx = context.WithValue(ctx, mwKey(i), i+1)
+			if mw.Cancel {
+				ctx, c.cancelSession = context.WithCancel(ctx)
+			}
+			return ctx, nil
 		}))
 	}
 	if cfg.Term != "" {
@@ -353,25 +376,28 @@ func (rt *Runtime) buildServer() (*wire.Server, error) {
 type Result struct {
 	Conns         []*connState
 	ServeReturned bool
-	ServeErr      string
-	Outcome       int // RunIdle / RunBudget / RunLockDead (E2)
-	Stuck         []string
-	Dirty         bool // goroutines left behind: the bubble must be abandoned
-	CloseBlocked  bool // final Close did not return
-	Schedule      []int32
-	Trace         uint64
-	Decisions     int
-	CloserEvents  [][]Event
-	Panics        []string
-	ParamsMutated string
-	LockWaits     int
-	HoldsForced   int
-	Accepts       int
-	BuildErr      string
-	InCmd         []bool     // E2: per task, inside an admitted command when the run ended
-	LockDead      string     // E1: a connection blocked forever on a library mutex (instrumented Lock site)
-	Points        [][]string // E2: schedule points seen per task (task 0 = accept loop, then connections, then closers)
-	NConns        int
+	// PreClose: outcome of the Close call made before Serve (SchedCase.CloseFirst)
+	PreClose                string
+	ServeDoneBeforeTeardown bool
+	ServeErr                string
+	Outcome                 int // RunIdle / RunBudget / RunLockDead (E2)
+	Stuck                   []string
+	Dirty                   bool // goroutines left behind: the bubble must be abandoned
+	CloseBlocked            bool // final Close did not return
+	Schedule                []int32
+	Trace                   uint64
+	Decisions               int
+	CloserEvents            [][]Event
+	Panics                  []string
+	ParamsMutated           string
+	LockWaits               int
+	HoldsForced             int
+	Accepts                 int
+	BuildErr                string
+	InCmd                   []bool     // E2: per task, inside an admitted command when the run ended
+	LockDead                string     // E1: a connection blocked forever on a library mutex (instrumented Lock site)
+	Points                  [][]string // E2: schedule points seen per task (task 0 = accept loop, then connections, then closers)
+	NConns                  int
 }
 
 // snapshotClosed records, before teardown releases parked goroutines (whose
@@ -519,6 +545,16 @@ func RunScheduled(c *Case) *Result {
 		}
 	}
 	rt.K.Configure(c.Sched, c.Sub)
+	if c.Sched != nil && c.Sched.CloseFirst {
+		func() {
+			defer func() {
+				if r := recover(); r != nil {
+					res.PreClose = "panic: " + fmt.Sprint(r)
+				}
+			}()
+			res.PreClose = "returned " + errClass(srv.Close())
+		}()
+	}
 	setCurKernel(rt.K)
 	go func() {
 		rt.serveErr = srv.Serve(rt.L)
@@ -568,6 +604,7 @@ func RunScheduled(c *Case) *Result {
 	// a real (not suppressed) join: every task is durably blocked or gone, and
 	// this Wait is the happens-before edge under which the results are read
 	bubbleWait()
+	res.ServeDoneBeforeTeardown = rt.serveDone
 	res.Stuck = rt.K.ParkedPoints()
 	res.Schedule = rt.K.Recorded()
 	res.Trace = rt.K.trace
